@@ -22,6 +22,10 @@ def suite_rowcol(g, n):
                          'read_bit', 'combine_in_place', 'combine_even'])
         r = rng.randint(1, 9)
         c = wdim(g, 1, 700 if rng.random() < 0.15 else 260)
+        if op in ('combine_in_place', 'combine_even', 'row_add', 'row_add_offset', 'row_swap_from') and rng.random() < 0.4:
+            # long rows: the unrolled / vector bodies with >= 9 words left for their scalar tails
+            c = rng.choice([rng.randint(513, 1700), 64 * rng.randint(9, 27), 64 * rng.randint(9, 27) + rng.choice([1, 37, 63])])
+            r = rng.randint(1, 4)
         M = g.mat(r, c)
         w = width(c)
         if op == 'row_swap':
@@ -71,7 +75,7 @@ def suite_rowcol(g, n):
             g.add(op, '%s %d %d' % (M, rng.randrange(r), rng.randrange(c)), c=c)
         elif op == 'combine_in_place':
             # A and B rows, same tail width: A.width - a_start words read from B at b_start
-            a_start = rng.randint(0, w - 1)
+            a_start = rng.randint(0, w - 1) if rng.random() < 0.5 else rng.randint(0, min(2, w - 1))
             extra = rng.randint(0, 2)
             cb = c + 64 * extra if rng.random() < 0.5 else c
             b_start = a_start + (width(cb) - w) if rng.random() < 0.5 else a_start
@@ -79,7 +83,7 @@ def suite_rowcol(g, n):
             B = g.mat(rb, cb)
             g.add(op, '%s %d %d %s %d %d' % (M, rng.randrange(r), a_start, B, rng.randrange(rb), b_start), c=c)
         elif op == 'combine_even':
-            a_start = rng.randint(0, w - 1)
+            a_start = rng.randint(0, w - 1) if rng.random() < 0.5 else rng.randint(0, min(2, w - 1))
             ra = rng.randint(1, 5)
             rb = rng.randint(1, 5)
             A = g.mat(ra, c)
@@ -135,11 +139,21 @@ def suite_observers(g, n):
         r = rng.randint(1, 8)
         c = wdim(g, 1, 300)
         if op in ('equal', 'cmp'):
+            if rng.random() < 0.15:
+                c = 64 * rng.randint(1, 5)          # the last column is bit 63 of the last word
             rows = g.rows_kind(r, c)
             rows2 = list(rows)
             mode = rng.random()
             r2, c2 = r, c
-            if mode < 0.5:
+            if mode < 0.12:
+                # first difference in the most significant column(s) of the last word (unsigned comparison of words)
+                i = rng.randrange(r)
+                rows2[i] ^= 1 << (c - 1)
+                if rng.random() < 0.5 and c > 1:
+                    lo = (c - 1) // 64 * 64
+                    rows2[i] ^= rng.getrandbits(c - 1 - lo) << lo
+                    rows[i] ^= rng.getrandbits(c - 1 - lo) << lo
+            elif mode < 0.5:
                 # differ in exactly one bit at a chosen position class
                 i = rng.randrange(r)
                 j = pick_col(g, c)
@@ -370,7 +384,14 @@ def suite_mul(g, n, big=False):
 def profile_matrix(g, r, c):
     """rows of an r x c matrix with a structured rank profile; returns rows"""
     rng = g.rng
-    mode = rng.choice(['profile', 'profile', 'dense', 'sparse', 'zero', 'gap', 'lowrank', 'wordgap'])
+    mode = rng.choice(['profile', 'profile', 'dense', 'sparse', 'zero', 'gap', 'lowrank', 'wordgap', 'deferred'])
+    if mode == 'deferred':
+        # the pivot of every column lies far below the current pivot row: rows of a profile matrix rotated / reversed
+        rows, _ = g.rank_profile_rows(r, c)
+        if rng.random() < 0.5:
+            k = rng.randint(r // 2, max(r // 2, r - 1))
+            return rows[k:] + rows[:k]
+        return rows[::-1]
     if mode == 'profile':
         rows, _ = g.rank_profile_rows(r, c)
         return rows
@@ -399,6 +420,9 @@ def profile_matrix(g, r, c):
 
 def edim(g, big=False):
     rng = g.rng
+    if big and rng.random() < 0.05:
+        # beyond 8 words per row / several table strips: loop counts of the unrolled bodies, late remainder blocks
+        return rng.choice([rng.randint(450, 700), rng.randint(450, 1300), rng.choice([469, 473, 547, 552, 589, 1013, 1266])])
     if big and rng.random() < 0.3:
         return rng.choice([200, 255, 256, 257, 300, 384, 400, 500, 513])
     x = rng.random()
@@ -414,6 +438,9 @@ def suite_echelon(g, n, big=False):
                          'echelonize_m4ri_exact', 'echelonize_m4ri_h', 'echelonize_pluq', 'echelonize_pluq', 'echelonize',
                          'top_echelonize_m4ri', 'top_echelonize_exact'])
         r, c = edim(g, big), edim(g, big)
+        if big and rng.random() < 0.02:
+            # a handful of rows, very many columns: the automatic k is cut down by the cache-size rule
+            r, c = rng.randint(1, 3), rng.randint(22000, 40000)
         rows = profile_matrix(g, r, c)
         full = rng.randint(0, 1)
         if op == 'gauss_delayed':
